@@ -20,8 +20,10 @@ theorem rangesSize_append (a b : List (Nat × Nat)) : rangesSize (a ++ b) = rang
 
 theorem varintSize_succ (n : Nat) : varintSize (n + 1) = varintSize n + rangeCountIncr n := by
   unfold varintSize rangeCountIncr
-  repeat' split
-  all_goals omega
+  simp only [GmQuic.Gen.ackIncrAt1, GmQuic.Gen.ackIncrBy1, GmQuic.Gen.ackIncrAt2, GmQuic.Gen.ackIncrBy2,
+    GmQuic.Gen.ackIncrAt3, GmQuic.Gen.ackIncrBy3, GmQuic.Gen.ackIncrDefault]
+  by_cases h1 : n = 63 <;> by_cases h2 : n = 16383 <;> by_cases h3 : n = 1073741823 <;> simp only [h1, h2, h3, if_true, if_false] <;>
+    (repeat' split) <;> omega
 
 /-! ### capacity accounting -/
 
